@@ -65,6 +65,8 @@ structure ChanCfg where
   /-- joinwg only: the positions handed to the emitted function, as indices into `ins` (a channel may repeat);
   `none` = every channel once, in order -/
   slice : Option (List Nat) := none
+  /-- joinsel only: channel arguments that are nil at run time -/
+  nils : List Nat := []
 
 def parseIns : List SExp → Option (List (Nat × List Nat))
   | [] => some []
@@ -74,6 +76,11 @@ def parseIns : List SExp → Option (List (Nat × List Nat))
     let r ← parseIns rest
     some ((c, it) :: r)
   | _ => none
+
+def itemsOf' (ins : List (Nat × List Nat)) (i : Nat) : List Nat :=
+  match ins[i]? with
+  | some p => p.2
+  | none => []
 
 def parseChanCfg : SExp → Option ChanCfg
   | .list [.atom "cfg", .list [.atom "ocap", .atom oc], .list (.atom "ins" :: ins)] => do
@@ -85,6 +92,11 @@ def parseChanCfg : SExp → Option ChanCfg
     let ins ← parseIns ins
     let sl ← natList sl
     if sl.all (· < ins.length) then some { ocap := oc, ins := ins, slice := some sl } else none
+  | .list [.atom "cfg", .list [.atom "ocap", .atom oc], .list (.atom "nils" :: ns), .list (.atom "ins" :: ins)] => do
+    let oc ← oc.toNat?
+    let ins ← parseIns ins
+    let ns ← natList ns
+    if ns.all (fun i => i < ins.length && (itemsOf' ins i).isEmpty) then some { ocap := oc, ins := ins, nils := ns } else none
   | _ => none
 
 def parsePairs : List SExp → Option (List (Nat × Nat))
@@ -480,7 +492,7 @@ def runSys (sys : String) (cfg : SExp) (evs : List Ev) : String :=
           (List.range np).all (fun i => gotOf sr.1.got i == pitems i &&
             (if seen i then sr.1.st i == .skipped else sr.1.st i == .finished))) (JoinWG.init c, []) evs
       | "joinsel" =>
-        let c : JoinSelect.Cfg := { n := n, items := items, cap := caps }
+        let c : JoinSelect.Cfg := { n := n, items := items, cap := caps, nilIn := fun i => cc.nils.contains i }
         replay (joinselEv c) (fun s => s.seen && s.pc == .done &&
           (List.range n).all (fun i => gotOf s.got i == items i)) (JoinSelect.init c) evs
       | "pipeline" =>
